@@ -386,6 +386,7 @@ impl Lab {
                     (monitors::inner_would_resolve(&w, r), monitors::stage_of(&w, r))
                 };
                 let res = fut.as_mut().poll(&mut cx);
+                let woken_during = self.wakers[r].wakes.load(Ordering::SeqCst) > 0;
                 let mut w = lock(&self.world);
                 let step = w.step;
                 if w.cfg.timeout_layer_ms.is_some() {
@@ -399,7 +400,7 @@ impl Lab {
                 match res {
                     Poll::Pending => {
                         let progressed = w.reqs[r].state != before;
-                        monitors::on_poll_result(&mut w, r, progressed, wakes, polls_before);
+                        monitors::on_poll_result(&mut w, r, progressed, wakes, polls_before, woken_during);
                     }
                     Poll::Ready(out) => {
                         let vnow = w.vnow_ms();
@@ -416,11 +417,11 @@ impl Lab {
                                 }
                                 w.reqs[r].state = ReqState::Done;
                                 w.count("requests_ok");
-                                monitors::on_poll_result(&mut w, r, true, wakes, polls_before);
+                                monitors::on_poll_result(&mut w, r, true, wakes, polls_before, woken_during);
                             }
                             Err(e) => {
                                 let es = format!("{e:?}");
-                                monitors::on_poll_result(&mut w, r, true, wakes, polls_before);
+                                monitors::on_poll_result(&mut w, r, true, wakes, polls_before, woken_during);
                                 monitors::on_request_error(&mut w, r, &es);
                                 if es.contains("RequestTimeout") {
                                     // the caller drops the timed-out future: whatever it had in flight is abandoned
